@@ -15,6 +15,7 @@ from ..cfg import CFG, describe_path, find_path
 from ..core import Ctx, Rule
 from ..facts import ShapeError, call_name, dotted, kwarg, norm, walk_no_nested
 from ..tables import Inst, Opaque, Sym, Undecidable, decide, sym_eval
+from .memo_rules import memo_keys_rule
 
 ROUND = 'fpy2/number/round.py'
 REALS = 'fpy2/number/number/reals.py'
@@ -1057,6 +1058,7 @@ RULES = [
     Rule('C01.F1b', 'every result of a context rounding is tagged with that context', f1b_result_tagged, 30, 'F'),
     Rule('C01.P3', 'inexact iff digits lost; exact=True refuses; flags and increment wiring in RealFloat._round_at', p3_inexact, 12, 'P'),
     Rule('C01.X2', 'Context._round_prepare operand-kind table', x2_round_prepare, 8, 'X'),
+    Rule('C01.M1', 'a remembered conversion or rounding is keyed by every input it was computed from', memo_keys_rule(('fpy2/number/context/', 'fpy2/number/number/', 'fpy2/number/round.py', 'fpy2/number/gmputils.py', 'fpy2/number/format.py'), 'value, precision and digit position'), 1, 'M'),
     Rule('C01.T6', 'range predicates are strict against the extremes (which are members): _is_overflowing, representable_in, ExpContext exponent range', t6_range_predicates, 5, 'T'),
     Rule('C01.F2', 'non-dyadic operands reach the format through the round-to-odd wrapper: RoundToZero, prec+2 digits, ternary, sticky fold (= C02.F1)', _f2_round_to_odd, 12, 'F'),
 ]
@@ -1076,6 +1078,9 @@ _EF = CTXDIR + 'efloat.py'
 _EXP = CTXDIR + 'exponential.py'
 
 MUTANTS = [
+    Mutant('prepare-remembered-by-precision', CTXDIR + 'context.py', "        p, n = self.round_params()\n        return mpfr_value(x, prec=p, n=n)",
+           "        p, n = self.round_params()\n        key = (x, p)\n        if key not in _PREPARED:\n            _PREPARED[key] = mpfr_value(x, prec=p, n=n)\n        return _PREPARED[key]\n\n\n_PREPARED: dict = {}\n", 'C01.M1',
+           'seeded change C01c: every fixed-point context has p = None, so the first one to round 1/3 decides for all'),
     Mutant('smallest-power-underflows', CTXDIR + 'exponential.py', "        if rounded.e < self.emin:", "        if rounded.e <= self.emin:", 'C01.T6',
            'seeded change C01b: ExpContext(8).round(2**-127) comes back NaN / flagged'),
     Mutant('largest-value-overflows', CTXDIR + 'mpb_fixed.py', "        return x > self.pos_maxval\n\n    def _overflow_to_infinity", "        return x >= self.pos_maxval\n\n    def _overflow_to_infinity", 'C01.T6'),
